@@ -104,6 +104,17 @@ class Tr:
             return self.ty(n, env) == "nat"
         return False
 
+    def is_int(self, n, env):
+        if isinstance(n, ast.Constant):
+            return isinstance(n.value, int) and not isinstance(n.value, bool)
+        if isinstance(n, ast.Name):
+            return env.get(n.id) in ("nat", "Z")
+        if isinstance(n, ast.UnaryOp) and isinstance(n.op, ast.USub):
+            return self.is_int(n.operand, env)
+        if isinstance(n, ast.BinOp) and isinstance(n.op, (ast.Add, ast.Sub, ast.Mult)):
+            return self.is_int(n.left, env) and self.is_int(n.right, env)
+        return False
+
     # ---- expressions -------------------------------------------------------------------
     def nat(self, n, env, hyps):
         if isinstance(n, ast.Constant) and isinstance(n.value, int) and not isinstance(n.value, bool) and n.value >= 0:
@@ -147,6 +158,8 @@ class Tr:
             return f"(Z.of_nat {self.nat(n, env, hyps)})"
         if t != "Z":
             self.abort(n, f"integer expression expected, found {t}")
+        if isinstance(n, ast.Name):
+            return n.id
         if isinstance(n, ast.Constant):
             return f"({n.value})%Z"
         if isinstance(n, ast.UnaryOp):
@@ -213,9 +226,19 @@ class Tr:
                     return inner.func.attr, d.args[2], point
         return None
 
+    def moment_call(self, n, env):
+        return (isinstance(n.func, ast.Attribute) and isinstance(n.func.value, ast.Name) and env.get(n.func.value.id) == "dist"
+                and n.func.attr == "get_moment" and len(n.args) == 1 and not n.keywords)
+
+    def identity_call(self, n, env):
+        """value-preserving conversions between the two CAS: sympy.sympify(x)"""
+        return (isinstance(n.func, ast.Name) and env.get(n.func.id) == "sympy.sympify" and len(n.args) == 1 and not n.keywords)
+
     def call_ty(self, n, env):
-        if self.transform_call(n, env):
+        if self.transform_call(n, env) or self.moment_call(n, env):
             return "R"
+        if self.identity_call(n, env):
+            return self.ty(n.args[0], env)
         if isinstance(n.func, ast.Attribute) and isinstance(n.func.value, ast.Name) and env.get(n.func.value.id) == "dist" \
                 and n.func.attr == "mgf_exists_at":
             return "bool"
@@ -231,6 +254,10 @@ class Tr:
             if order is None:
                 return f"({kind} {p})"
             return f"(d{kind} {self.nat(order, env, hyps)} {p})"
+        if self.moment_call(n, env):
+            return f"(mom {self.nat(n.args[0], env, hyps)})"
+        if self.identity_call(n, env):
+            return self.R(n.args[0], env, hyps)
         self.abort(n, "call outside the subset")
 
     def boolean(self, n, env, hyps):
@@ -252,6 +279,8 @@ class Tr:
                 return f"(fmem {coq_string(a.value)} {b.id})"
             if isinstance(op, ast.Eq) and self.is_nat(a, env) and self.is_nat(b, env):
                 return f"({self.nat(a, env, hyps)} =? {self.nat(b, env, hyps)})%nat"
+            if isinstance(op, ast.Eq) and self.is_int(a, env) and self.is_int(b, env):
+                return f"({self.Z(a, env, hyps)} =? {self.Z(b, env, hyps)})%Z"
             if isinstance(op, ast.Eq) and ast.unparse(a) == "self.func" and isinstance(b, ast.Constant) \
                     and isinstance(b.value, str) and env.get("self.func") == "string":
                 return f"(String.eqb func {coq_string(b.value)})"
@@ -480,18 +509,40 @@ def tr_get_trig_moment(cls, path, genv):
         s, rest_ = ss[0], ss[1:]
         if isinstance(s, ast.For):
             return f"let result :=\n{pad}  " + loop(s, env, hyps, ind + 1) + f" in\n{pad}" + stmts(rest_, env, hyps, ind)
-        if isinstance(s, ast.If) and len(s.body) == 1 and len(s.orelse) == 1 \
-                and all(isinstance(x, ast.Assign) and len(x.targets) == 1 and isinstance(x.targets[0], ast.Name)
-                        for x in (s.body[0], s.orelse[0])) and s.body[0].targets[0].id == s.orelse[0].targets[0].id:
-            v = s.body[0].targets[0].id
+        if isinstance(s, ast.Assign) and len(s.targets) == 1 and isinstance(s.targets[0], ast.Name) \
+                and s.targets[0].id not in env and tr.ty(s.value, env) in ("nat", "Z"):
+            v = s.targets[0].id
+            env2 = dict(env)
+            env2[v] = "Z"
+            return f"let {v} := {tr.Z(s.value, env, hyps)} in\n{pad}" + stmts(rest_, env2, hyps, ind)
+        if isinstance(s, ast.If):
+            # if c1: v = e1 elif c2: v = e2 ... else: v = en      (one ring-valued variable)
+            chain, cur = [], s
+            while True:
+                if not (len(cur.body) == 1 and isinstance(cur.body[0], ast.Assign) and len(cur.body[0].targets) == 1
+                        and isinstance(cur.body[0].targets[0], ast.Name)):
+                    tr.abort(cur, "branch is not a single assignment")
+                chain.append((cur.test, cur.body[0]))
+                if len(cur.orelse) == 1 and isinstance(cur.orelse[0], ast.If):
+                    cur = cur.orelse[0]
+                    continue
+                if not (len(cur.orelse) == 1 and isinstance(cur.orelse[0], ast.Assign) and len(cur.orelse[0].targets) == 1
+                        and isinstance(cur.orelse[0].targets[0], ast.Name)):
+                    tr.abort(cur, "the chain has no final else with a single assignment")
+                last = cur.orelse[0]
+                break
+            names = {a.targets[0].id for _, a in chain} | {last.targets[0].id}
+            if len(names) != 1:
+                tr.abort(s, f"branches assign different variables {sorted(names)}")
+            v = names.pop()
             if v in env:
                 tr.abort(s, f"{v} is reassigned")
-            c = tr.boolean(s.test, env, hyps)
-            a = tr.R(s.body[0].value, env, hyps)
-            b = tr.R(s.orelse[0].value, env, hyps)
+            txt = tr.R(last.value, env, hyps)
+            for c, a in reversed(chain):
+                txt = f"(if {tr.boolean(c, env, hyps)} then {tr.R(a.value, env, hyps)} else {txt})"
             env2 = dict(env)
             env2[v] = "R"
-            return f"let {v} := if {c} then {a} else {b} in\n{pad}" + stmts(rest_, env2, hyps, ind)
+            return f"let {v} := {txt} in\n{pad}" + stmts(rest_, env2, hyps, ind)
         if isinstance(s, ast.AugAssign) and isinstance(s.op, ast.Add) and isinstance(s.target, ast.Name) \
                 and s.target.id == "result":
             e = tr.R(s.value, env, hyps)
@@ -509,8 +560,8 @@ def tr_get_trig_moment(cls, path, genv):
     if tail != ["assert im(result).expand() == 0", "return cls.convert_func_moment(re(result))"]:
         tr.abort(fn, f"unexpected statements after the division: {tail}")
     letl = "".join(f"  let {v} := {e} in\n" for v, e, _ in lets)
-    bind = "(R : cring) (I : R) (cf : Z -> R) (dcf : nat -> Z -> R)"
-    sec = ("(* R: any commutative ring; I: sympy.I; cf m: dist.cf(m) at an integer frequency m;\n"
+    bind = "(R : cring) (I : R) (mom : nat -> R) (cf : Z -> R) (dcf : nat -> Z -> R)"
+    sec = ("(* R: any commutative ring; I: sympy.I; mom a: dist.get_moment(a); cf m: dist.cf(m) at an integer frequency m;\n"
            "   dcf a m: diff(dist.cf(t), t, a).xreplace({t: m}) *)\n"
            f"(* {os.path.relpath(path, lib.REPO)}:{fn.lineno}  FunctionalAssignment.get_trig_moment: `result` before `result /= ...` *)\n"
            f"Definition get_trig_moment_num {bind} (func_powers : fdict) : R :=\n{letl}  let result := r0 in\n  {num_body}.\n\n"
@@ -812,11 +863,14 @@ def generate(repo=None):
     if ss is None:
         raise Abort(f"{path}: sympy.Symbol is not imported")
     genv[ss] = "sympy.Symbol"
+    sy = alias_of(tree, "sympy", "sympify")
+    if sy is not None:
+        genv[sy] = "sympy.sympify"
     for nm in ("sin", "cos", "exp"):
         if not imported_from(tree, ["symengine_wrapper", "symengine"], nm):
             raise Abort(f"{path}: {nm} is not imported from symengine")
         genv[nm] = "symengine." + nm
-    check_no_rebinding(tree, path, {"I", "N", "re", "im", "Rational", "diff", ss, "sin", "cos", "exp", "math",
+    check_no_rebinding(tree, path, {"I", "N", "re", "im", "Rational", "diff", ss, sy or ss, "sin", "cos", "exp", "math",
                                     "sympy2symengine", RAISE_EXC})
     out = HEADER % repo
     out += tr_get_func_moment(cls, path) + "\n"
